@@ -87,7 +87,7 @@ class Report:
             print(f"VIOLATION property={self.prop} replay={v['replay']}")
             print(f"  what: {v['what']} (seen {v['count']}x)")
         for h in self.harness_errors[:10]:
-            print(f"HARNESS-ERROR {self.prop}: {h.splitlines()[0][:300] if h else h}")
+            print(f"HARNESS-ERROR {self.prop}: {h.splitlines()[0][:1500] if h else h}")
         cov = dict(coverage)
         cov["known_findings_seen"] = {k: v["count"] for k, v in self.known.items()}
         cov["harness_errors"] = len(self.harness_errors)
